@@ -57,6 +57,18 @@ def hashable : Ty → Bool
 
 def isTop (t : Ty) : Bool := t == .prim "Any" || t == .prim "AnyStruct" || t == .prim "AnyResource"
 
+/-- the super type is a simple type: the six tops decide by kind, otherwise only simple types (by reachability) -/
+def chkPrim (a : Ty) (n : String) : Bool :=
+  if n == "Any" then true
+  else if n == "AnyStruct" then !a.isResource && a != any
+  else if n == "AnyResource" then a.isResource
+  else if n == "AnyResourceAttachment" then a.isAttachment && a.isResource
+  else if n == "AnyStructAttachment" then a.isAttachment && !a.isResource
+  else if n == "HashableStruct" then hashable a
+  else match a with
+    | .prim m => m != n && (m == "Never" || reach 8 m n)
+    | _ => false
+
 mutual
 /-- `IsSubType` -/
 def sub : Ty → Ty → Bool
@@ -65,16 +77,7 @@ termination_by a b => (a.size + b.size, 1)
 decreasing_by all_goals simp_wf; all_goals omega
 /-- `CheckSubTypeWithoutEquality` (for `a ≠ Never`) -/
 def chk : Ty → Ty → Bool
-  | a, .prim n =>
-    if n == "Any" then true
-    else if n == "AnyStruct" then !a.isResource && a != any
-    else if n == "AnyResource" then a.isResource
-    else if n == "AnyResourceAttachment" then a.isAttachment && a.isResource
-    else if n == "AnyStructAttachment" then a.isAttachment && !a.isResource
-    else if n == "HashableStruct" then hashable a
-    else match a with
-      | .prim m => m != n && (m == "Never" || reach 8 m n)
-      | _ => false
+  | a, .prim n => chkPrim a n
   | .opt a, .opt s => sub a s
   | a, .opt s => sub a s
   | .dict k v, .dict k' v' => sub v v' && sub k k'
